@@ -467,16 +467,16 @@ pub fn prop(tier: Tier, _seed: u64) -> Prop {
 
     // ---- (5) rejections
     let b7 = bes.clone();
-    p.spaces.push(Space::new("rejections: non-alpha types, size and type mismatch", 13 * 13 * 2 * 4, move |idx, ctx| {
+    p.spaces.push(Space::new("rejections: non-alpha types, size (both / width only / height only) and type mismatch", 13 * 13 * 4 * 4, move |idx, ctx| {
         let mut d = [0usize; 4];
-        decode(idx, &[13, 13, 2, 4], &mut d);
+        decode(idx, &[13, 13, 4, 4], &mut d);
         let (s, t, szv, ent) = (ALL_PT[d[0]], ALL_PT[d[1]], d[2], d[3]);
         let be = b7[idx as usize % b7.len()];
-        ctx.sample(|| json!({"src": format!("{:?}", s), "dst": format!("{:?}", t), "size_mismatch": szv == 1, "variant": ent}));
+        ctx.sample(|| json!({"src": format!("{:?}", s), "dst": format!("{:?}", t), "size_mismatch": szv != 0, "variant": ent}));
         let m = mul_div(be);
         let mut l = Lcg::new(idx);
         let src = Raw::from_fn(s, 3, 2, |_, _, _| l.comp(s.ck()));
-        let (dw, dh) = if szv == 1 { (2, 3) } else { (3, 2) };
+        let (dw, dh) = [(3, 2), (2, 3), (2, 2), (3, 3)][szv];
         let mut dst = Raw::filled(t, dw, dh, 0xA5);
         let before = dst.bytes().to_vec();
         let (op_mul, inplace) = (ent % 2 == 0, ent / 2 == 1);
@@ -497,7 +497,7 @@ pub fn prop(tier: Tier, _seed: u64) -> Prop {
         let want_ok = if inplace { t.has_alpha() } else { s == t && s.has_alpha() && szv == 0 };
         if res.is_ok() != want_ok {
             ctx.violation(format!("C06|gate|{}", if want_ok { "supported call rejected" } else { "unsupported call accepted" }), || {
-                json!({"src": format!("{:?}", s), "dst": format!("{:?}", t), "inplace": inplace, "size_mismatch": szv == 1, "result": format!("{:?}", res)})
+                json!({"src": format!("{:?}", s), "dst": format!("{:?}", t), "inplace": inplace, "dst_size": [dw, dh], "src_size": [3, 2], "result": format!("{:?}", res)})
             });
         }
         if res.is_err() && dst.bytes() != &before[..] {
